@@ -631,19 +631,24 @@ func (w *worker[T, JobType]) NumIdleWorkers() int {
 }
 
 func (w *worker[T, JobType]) Pause() error {
-	switch s := w.status.Load(); s {
-	case running:
-		w.status.Store(paused)
-		// a waiter that was waiting for the queues to drain now only waits for the
-		// jobs in flight
-		w.wakeWaiters()
-	case paused, stopped:
-		return nil
-	default:
-		return ErrNotRunningWorker
-	}
+	for {
+		switch s := w.status.Load(); s {
+		case running:
+			// compare-and-swap: a Stop finishing in between must not be overwritten
+			if !w.status.CompareAndSwap(running, paused) {
+				continue
+			}
+			// a waiter that was waiting for the queues to drain now only waits for the
+			// jobs in flight
+			w.wakeWaiters()
+		case paused, stopped:
+			return nil
+		default:
+			return ErrNotRunningWorker
+		}
 
-	return nil
+		return nil
+	}
 }
 
 func (w *worker[T, JobType]) Stop() error {
@@ -779,7 +784,16 @@ func (w *worker[T, JobType]) Resume() error {
 		return ErrRunningWorker
 	}
 
-	w.status.Store(running)
+	// only a paused worker is resumed: a blind store could overwrite the Stopped
+	// status of a Stop (e.g. from the context listener) that finished in between
+	if !w.status.CompareAndSwap(paused, running) {
+		if w.IsRunning() {
+			return ErrRunningWorker
+		}
+
+		return ErrNotRunningWorker
+	}
+
 	w.notifyToPullNextJobs()
 
 	return nil
